@@ -27,8 +27,8 @@ Inductive kexp :=
 | KESkip.                    (* this mode was not run on the image *)
 
 Inductive c04ocase :=
-| KOpenBytes (cid : N) (cname : string) (strict_man strict_j jck : bool) (wbuf maxman : Z) (blockSize ri : N)
-             (meta : option N) (fls : list kfile) (rw ro : kexp).
+| KOpenBytes (cid : N) (cname : string) (strict_man strict_j jck err_missing err_exist : bool) (wbuf maxman : Z)
+             (blockSize ri : N) (meta : option N) (fls : list kfile) (rw ro : kexp).
 
 Definition ftype_of_code (c : N) : Sweep.ftype :=
   if c =? 1 then Sweep.FManifest else if c =? 2 then Sweep.FJournal else if c =? 4 then Sweep.FTable else Sweep.FTemp.
@@ -54,10 +54,10 @@ Definition pair_eqb (a b : N * N) : bool := (fst a =? fst b) && (snd a =? snd b)
 Definition optN_eqb (a b : option N) : bool :=
   match a, b with Some x, Some y => x =? y | None, None => true | _, _ => false end.
 
-Definition run_open (cid : N) (cname : string) (sm sj jck : bool) (wbuf maxman : Z) (blockSize ri : N) (ro : bool)
+Definition run_open (cid : N) (cname : string) (sm sj jck em ee : bool) (wbuf maxman : Z) (blockSize ri : N) (ro : bool)
     (img : simage) : ores ostate :=
   open_bytes jcrc jp rp kp ldb_batchHeaderLen mp tblp tbl_crc (fun x => x) false None blockSize ri (cmp_of_id cid)
-    (mkOO sm sj jck wbuf maxman ro false false (unhex cname)) [] img.
+    (mkOO sm sj jck wbuf maxman ro em ee (unhex cname)) [] img.
 
 (* the numbers of the checks that fail (empty = agreement) *)
 Definition check_exp (r : ores ostate) (e : kexp) : list N :=
@@ -84,10 +84,10 @@ Definition check_exp (r : ores ostate) (e : kexp) : list N :=
 
 Definition diag_case (c : c04ocase) : list N * list N :=
   match c with
-  | KOpenBytes cid cname sm sj jck wbuf maxman blockSize ri meta fls rw ro =>
+  | KOpenBytes cid cname sm sj jck em ee wbuf maxman blockSize ri meta fls rw ro =>
       let img := image_of meta fls in
-      (check_exp (run_open cid cname sm sj jck wbuf maxman blockSize ri false img) rw,
-       check_exp (run_open cid cname sm sj jck wbuf maxman blockSize ri true img) ro)
+      (check_exp (run_open cid cname sm sj jck em ee wbuf maxman blockSize ri false img) rw,
+       check_exp (run_open cid cname sm sj jck em ee wbuf maxman blockSize ri true img) ro)
   end.
 
 Definition run_ocase (c : c04ocase) : bool :=
